@@ -42,6 +42,30 @@ POINTS = {
 }
 
 
+# ----------------------------------------------------------------------------
+# round 3b: the same menus in other units of measurement, at other levels, as
+# integers.  A configuration may carry ``cfg["transform"] = {"unit": u, "level":
+# l, "dtype": t}`` (u, l scalars or one value per column): symbol p is fed as the
+# row  l + u * p  (computed once, in float64; the detector and the specification
+# receive the very same numbers), converted to ``dtype`` for the detector.
+# Nothing in the property depends on the unit (scores are ratios of counts /
+# normalised densities on data-driven supports and bandwidths) or on the level
+# (PCA centres the data), so the oracle is unchanged: lock-step agreement with the
+# specification, whose "no spread" guards are relative to the data's magnitude.
+# ----------------------------------------------------------------------------
+def _row(cfg, ev):
+    p = POINTS[cfg.get("menu", cfg["dim"])][ev]
+    tr = cfg.get("transform")
+    if not tr:
+        return p
+    d = len(p)
+    unit = tr.get("unit", 1.0)
+    level = tr.get("level", 0.0)
+    unit = list(unit) if isinstance(unit, (list, tuple)) else [unit] * d
+    level = list(level) if isinstance(level, (list, tuple)) else [level] * d
+    return tuple(float(level[j]) + float(unit[j]) * p[j] for j in range(d))
+
+
 def _impl_scores(det):
     s = getattr(det, "_change_score", None)
     if isinstance(s, (list, tuple)):
@@ -73,13 +97,14 @@ class PCACDSystem(System):
         # the event sequence alone (deepcopy is idempotent w.r.t. layout).
         det = state["det"] = copy.deepcopy(state["det"])
         p = cfg["params"]
-        x = POINTS[cfg.get("menu", cfg["dim"])][ev]
+        x = _row(cfg, ev)
+        dtype = (cfg.get("transform") or {}).get("dtype", "float64")
         before = _impl_scores(det)
         n_before = None if before is None else len(before)
         seed_step(ctx.seed, cfg["id"], pos)
         exc = None
         try:
-            det.update(np.array([x], dtype=float))
+            det.update(np.array([x], dtype=dtype))
         except Exception as e:  # judged below
             exc = e
         obs = stream_obs(det)
@@ -167,6 +192,18 @@ class PCACDSystem(System):
         # ---- coverage counters
         aux = state["aux"]
         metric = p["divergence_metric"]
+        fam = cfg.get("fam")
+        if fam:
+            if exp["checked"]:
+                ctx.count("fam_%s_checks" % fam)
+                if (impl_score if impl_score is not None else exp["score"]) > 1e-9:
+                    ctx.count("fam_%s_nonzero_scores" % fam)
+                if exp["num_pcs"] >= 2:
+                    ctx.count("fam_%s_multi_component_checks" % fam)
+            if obs["state"] == "drift":
+                ctx.count("fam_%s_drifts" % fam)
+                if exp["epoch"] >= 2:
+                    ctx.count("fam_%s_second_epoch_drifts" % fam)
         if exp["phase"] == "slide":
             if not p.get("online_scaling", True):
                 ctx.count("noscale_sliding_steps")
@@ -353,7 +390,7 @@ def _dev_tasks(c, k, periods=5, split=False, menu=None):
     L = periods * w
     default = [c["period"][i % w] for i in range(L)]
     menu = list(menu if menu is not None else c["alphabet"])
-    cfg = {key: c[key] for key in ("id", "dim", "alphabet", "params")}
+    cfg = {key: c[key] for key in ("id", "dim", "alphabet", "params", "transform", "fam") if key in c}
     cfg["len"] = L
     base = {"system": "PCACD", "cfg": cfg, "mode": "dev", "default": default, "menu": menu, "validate_every": 50}
     if not split or k == 0:
@@ -486,6 +523,210 @@ def _sym_tasks(tier):
     return out
 
 
+# ----------------------------------------------------------------------------
+# round 3b families: unit of measurement, mixed units, level, integer dtype
+# ----------------------------------------------------------------------------
+# Units explored with online_scaling=False (the raw data reach the projection, the
+# histogram supports and the kernel bandwidth) ...
+UNITS_SMALL = [1e-12, 1e-9, 1e-6, 2.0 ** -16, 1e-4, 1e-3, 1e-2]
+UNITS_LARGE = [1e2, 1e3, 2.0 ** 16, 1e6, 1e9, 1e12]
+# ... and with online_scaling=True (the unit must be removed by the scaler)
+UNITS_SCALED = [1e-12, 1e-6, 1e-3, 1e3, 1e6, 1e12]
+# one unit per column (first ``dim`` entries are used)
+MIXED = {
+    "A": (1e-3, 1e3, 1.0),
+    "B": (1e6, 1e-6, 1.0),
+    "C": (0.25, 8.0, 1.0),
+}
+# offsets added to every row (dyadic, so that the rows stay exactly representable).
+# 2^16 keeps the float error of a correct implementation (level * 2^-52 * a few
+# operations ~ 1e-10 of the spread) an order of magnitude below the bin-edge / score
+# tolerance 1e-9 of the specification; larger levels would need looser tolerances.
+LEVELS = {
+    "p1024": 1024.0,
+    "m65536": -65536.0,
+    "cols": (65536.0, -1024.0, 0.5),
+}
+
+
+def _ustr(u):
+    return "%g" % u
+
+
+def _pick(index, dim, scen, w, step, metric, scaling, ev, delta):
+    return index[(dim % 2, scen % 2, w, step % 2, metric, scaling, ev % 2, delta % 2)]
+
+
+W9_PERIOD = (0, 1, 2, 3, 4, 5, 0, 2, 4)  # components retained (scaled .6/.99, raw .6/.99): 2-D 1212, 3-D 1323
+W9_ALPHABET = (0, 2, 3, 5)
+
+
+def _w9_task(cid, fam, tag, transform, u, si, quick):
+    """Intersection metric on window 9 = 3 bins (windows 3..5 have one or two bins: a
+    two-bin histogram cannot see a support that is wrong symmetrically, a one-bin
+    histogram sees nothing).  Periodic default over 5 periods; single deviations
+    (every other symbol of the alphabet) at one position of the reference window,
+    one of the first test window and every position of the third period (the
+    first 9 sliding updates) -- quick; at every position -- thorough."""
+    w = 9
+    L = 5 * w
+    step = 1 + (u + si) % 2
+    cfg = {
+        "id": cid,
+        "dim": 2 + u % 2,
+        "alphabet": list(W9_ALPHABET),
+        "len": L,
+        "transform": transform,
+        "fam": fam,
+        "params": {
+            "window_size": w,
+            "ev_threshold": (0.6, 0.99)[(u // 2 + si + 1) % 2],
+            "delta": (0.0, 0.1)[(u + 1) % 2],
+            "divergence_metric": "intersection",
+            "sample_period": {1: 0.12, 2: 0.2}[step],
+            "online_scaling": si == 0,
+        },
+    }
+    zone = set(range(L)) if not quick else ({3, w + 3} | set(range(2 * w, 3 * w)))
+    default = [W9_PERIOD[i % w] for i in range(L)]
+    menu = [list(W9_ALPHABET) if i in zone else [] for i in range(L)]
+    c = {"id": cid, "dim": cfg["dim"], "params": cfg["params"], "bits": {"step": step - 1}}
+    return {
+        "system": "PCACD",
+        "cfg": cfg,
+        "mode": "dev",
+        "default": default,
+        "menu": menu,
+        "menu_per_pos": True,
+        "k": 1,
+        "validate_every": 50,
+        "label": _label(c, "%s %s dev k1" % (fam, tag)),
+        "cost": L + sum(3 * (L - i) for i in zone),
+    }
+
+
+def _family_tasks(tier, allc):
+    """Extra deviation-bounded tasks (k = 1, the periodic default over 5 periods,
+    every position x every other symbol of the alphabet) on configurations taken
+    from the factorial: for every value of the family parameter both metrics x
+    scaling on/off as stated, the remaining factors (dimension, scenario, step,
+    ev_threshold, delta, window) rotate with the parameter's index.  The
+    intersection metric uses window 9 (three bins, see _w9_task), 'kl' alternates
+    windows 3 and 4 (quick) / 4 and 5 (thorough)."""
+    q = tier == "quick"
+    index = {}
+    for c in allc:
+        b = c["bits"]
+        index[(b["dim"], b["scen"], c["params"]["window_size"], b["step"], b["metric"], b["scaling"],
+               b["ev"], b["delta"])] = c
+    out = []
+    nid = [3000]
+
+    def add(fam, tag, transform, u, mi, si):
+        # mi: 0 intersection / 1 kl; si: 0 scaling on / 1 off (bits of _all_configs)
+        if mi == 0:
+            out.append(_w9_task(nid[0], fam, tag, transform, u, si, q))
+            nid[0] += 1
+            return
+        w = ((3, 4) if q else (4, 5))[(u + si) % 2]
+        base = _pick(index, u + mi, u // 2 + si, w, u + si + 1, mi, si, u // 2 + mi + si, u + mi + 1)
+        c = dict(base)
+        c["id"] = nid[0]
+        nid[0] += 1
+        c["transform"] = transform
+        c["fam"] = fam
+        for t in _dev_tasks(c, 1):
+            t["label"] = t["label"].replace("|dev k1", "|%s %s dev k1" % (fam, tag))
+            out.append(t)
+
+    for u, unit in enumerate(UNITS_SMALL):
+        for mi in (0, 1):
+            add("unit_small", "x" + _ustr(unit), {"unit": unit}, u, mi, 1)
+    for u, unit in enumerate(UNITS_LARGE):
+        for mi in (0, 1):
+            add("unit_large", "x" + _ustr(unit), {"unit": unit}, u, mi, 1)
+    for u, unit in enumerate(UNITS_SCALED if q else UNITS_SMALL + UNITS_LARGE):
+        for mi in (0, 1):
+            add("unit_small" if unit < 1 else "unit_large", "x" + _ustr(unit), {"unit": unit}, u, mi, 0)
+    for u, (name, units) in enumerate(sorted(MIXED.items())):
+        for mi in (0, 1):
+            for si in (0, 1):
+                if q and name == "B" and si == 1:
+                    continue  # raw data: like A, one column dominates (thorough only)
+                if q and name == "C" and si == 0:
+                    continue  # mild mix, removed by the scaler like A and B (thorough only)
+                add("mixed_units", name, {"unit": list(units)}, u + mi, mi, si)
+    for u, (name, level) in enumerate(sorted(LEVELS.items())):
+        for mi in (0, 1):
+            for si in (0, 1):
+                if q and (u + mi + si) % 3 == 2:
+                    continue
+                add("level", name, {"level": list(level) if isinstance(level, tuple) else level}, u + si, mi, si)
+    # integer rows: the menus times 4 are integers; fed as int64 arrays
+    for mi in (0, 1):
+        for si in (0, 1):
+            add("int64", "x4", {"unit": 4.0, "dtype": "int64"}, mi + si, mi, si)
+    return out
+
+
+def _long_family_tasks(tier):
+    """window 60 (7 bins, Page-Hinkley threshold 1, sklearn's covariance solver):
+    the scripted 228-sample history of the lambda1 family, without deviations, in
+    other units / at another level / as integers."""
+    default = [0, 1, 2, 3] * 33 + [4, 5, 3, 4, 5, 0] * 16
+    variants = [
+        ("unit_small", "x1e-06", {"unit": 1e-6}),
+        ("unit_large", "x1e+06", {"unit": 1e6}),
+        ("level", "m65536", {"level": -65536.0}),
+        ("int64", "x4", {"unit": 4.0, "dtype": "int64"}),
+        ("unit_small", "x1e-12", {"unit": 1e-12}),
+        ("unit_large", "x1e+12", {"unit": 1e12}),
+        ("mixed_units", "A", {"unit": list(MIXED["A"])}),
+        ("level", "cols", {"level": list(LEVELS["cols"])}),
+    ]
+    if tier == "quick":
+        variants = variants[:4]
+    out = []
+    i = 4000
+    for v, (fam, tag, transform) in enumerate(variants):
+        for mi, metric in enumerate(METRICS):
+            for si, scaling in enumerate((True, False)):
+                i += 1
+                if tier == "quick" and (v + mi + si) % 2 == 1:
+                    continue
+                cfg = {
+                    "id": i,
+                    "dim": 2,
+                    "alphabet": [0, 3, 4, 5],
+                    "len": len(default),
+                    "transform": transform,
+                    "fam": fam,
+                    "params": {
+                        "window_size": 60,
+                        "ev_threshold": 0.99,
+                        "delta": 0.1 if (v + mi) % 2 else 0.0,
+                        "divergence_metric": metric,
+                        "sample_period": 0.05,
+                        "online_scaling": scaling,
+                    },
+                }
+                out.append(
+                    {
+                        "system": "PCACD",
+                        "cfg": cfg,
+                        "mode": "dev",
+                        "default": default,
+                        "menu": [0, 3, 4, 5],
+                        "k": 0,
+                        "validate_every": 1,
+                        "label": "PCACD|%d|2D w60 %s %s ev0.99 d%s st3|%s %s long k0"
+                        % (i, metric[:5], "scal" if scaling else "raw", cfg["params"]["delta"], fam, tag),
+                        "cost": 40 * 300,
+                    }
+                )
+    return out
+
+
 def tasks(tier, seed):
     allc = _all_configs()
     W = lambda c: c["params"]["window_size"]  # noqa: E731
@@ -517,6 +758,8 @@ def tasks(tier, seed):
                 out += _dfs_tasks(c, c["alphabet"], split=2)
     out += _lambda1_tasks(tier)
     out += _sym_tasks(tier)
+    out += _family_tasks(tier, allc)
+    out += _long_family_tasks(tier)
     return out
 
 
@@ -537,6 +780,11 @@ REQUIRED = [
     "lambda1_drifts",
     "lambda1_positive_diff_below_threshold",
     "ambiguous_bin_checks",
+] + [
+    # round 3b families (PCACD draws no random numbers: none of these depends on VERIF_SEED)
+    "fam_%s_%s" % (fam, what)
+    for fam in ("unit_small", "unit_large", "mixed_units", "level", "int64")
+    for what in ("checks", "nonzero_scores", "multi_component_checks", "drifts")
 ]
 
 TIME_BUDGET = {"quick": 2400, "thorough": 14400}
@@ -550,7 +798,11 @@ def describe(tier):
         "5 periods (test window == reference window at every check) with every choice of <= k positions replaced "
         "by every other menu symbol, run to completion with prefix sharing; (2) every stream of length 2w+2 over "
         "the alphabet for w = 3; (3) window 60 (Page-Hinkley threshold 1): a scripted 228-sample history with a "
-        "change point and every single deviation in a zone around it; a history is non-trivial when at least one "
+        "change point and every single deviation in a zone around it; (4) the same menus in other units of "
+        "measurement (row = level + unit * point, one unit for all columns or one per column), at other levels and "
+        "as int64 rows: deviation-bounded histories (k = 1) and the scripted window-60 history, same oracle "
+        "(the specification is evaluated on the very same rows; nothing in it is an absolute magnitude); "
+        "a history is non-trivial when at least one "
         "update reported drift or started a rebuild; histories are distinct event sequences or configurations",
         "bounds": {
             "points": {str(k): v for k, v in POINTS.items()},
@@ -565,6 +817,28 @@ def describe(tier):
             "lambda1": "w=60, 2 configurations, single deviations at 20 positions x 3 symbols" if q
             else "w=60, 8 configurations (metric x scaling x delta), single deviations at 36 positions x 3 symbols",
             "symmetric_menu": "8 configurations, k=1" if q else "8 configurations, k=2 (w=4) / k=1 (w=5)",
+            "family_unit": "online_scaling off: units %s and %s; online_scaling on: units %s; each x {intersection, kl}; "
+            "dimension, scenario, step, ev_threshold, delta rotate with the unit's index"
+            % (
+                [_ustr(u) for u in UNITS_SMALL],
+                [_ustr(u) for u in UNITS_LARGE],
+                [_ustr(u) for u in (UNITS_SCALED if q else UNITS_SMALL + UNITS_LARGE)],
+            ),
+            "family_mixed_units": "per-column units %s x {intersection, kl}%s"
+            % ({k: list(v) for k, v in sorted(MIXED.items())},
+               " (A: scaling on/off, B: on, C: off)" if q else " x scaling on/off"),
+            "family_level": "offsets %s x {intersection, kl} x scaling on/off%s"
+            % ({k: (list(v) if isinstance(v, tuple) else v) for k, v in sorted(LEVELS.items())},
+               " (8 of the 12 combinations)" if q else ""),
+            "family_int64": "points x 4 fed as int64 arrays x {intersection, kl} x scaling on/off",
+            "family_histories": "kl: window %s, L = 5w, k = 1 over every position and every other alphabet symbol; "
+            "intersection: window 9 (3 bins), period %s, alphabet %s, L = 45, k = 1 over %s"
+            % ("3/4" if q else "4/5", list(W9_PERIOD), list(W9_ALPHABET),
+               "positions 3, 12 and 18..26" if q else "every position"),
+            "family_long": "window 60 scripted history (228 samples, no deviation): %s"
+            % ("unit 1e-6, unit 1e6, level -65536, int64: 2 of the 4 metric x scaling combinations each" if q
+               else "units 1e-12, 1e-6, 1e6, 1e12, mixed units A, levels -65536 and per-column, int64: "
+               "metric x scaling"),
         },
         "explanation": "states = tree nodes (the score history grows, no transposition merging); "
         "traces_validated_against_impl = maximal executions on which the real detector and the specification were "
@@ -589,5 +863,12 @@ def describe(tier):
             "the detector is deep-copied before every update so that snapshot exploration and fresh execution see "
             "the same memory layout (pandas/numpy results differ in the last bits between a grown frame and its copy)",
             "window_size <= 50 gives Page-Hinkley threshold 0; threshold 1 is exercised with window_size 60 only",
+            "unit / level families: 'no spread', 'no variance' and 'constant column' in the specification mean below "
+            "1e-9 of the magnitude of the data fed to the PCA, never an absolute number; score, bin-edge and "
+            "Page-Hinkley tolerances are unchanged (scores are unit-free); levels are limited to 2^16 so that the "
+            "float error of a correct implementation (level * 2^-52 * a few operations, relative to a spread of "
+            "order 1) stays an order of magnitude below those tolerances; units 1e-12 .. 1e12 only (no "
+            "underflow / overflow of variances); float32 rows are not explored (sklearn then computes the PCA in "
+            "single precision, whose error of ~1e-7 is above the oracle's tolerance)",
         ],
     }
